@@ -198,4 +198,8 @@ def rule_eof(ctx):
     ctx.rules[-1].id = "C17.eof"
 
 
-RULES = [rule_single_writer, rule_strip, rule_tabs_off, rule_blank_buffer, rule_eof]
+def rule_scan_level_agreement(ctx):
+    c20.rule_scan_level_agreement(ctx)
+
+
+RULES = [rule_single_writer, rule_strip, rule_tabs_off, rule_blank_buffer, rule_eof, rule_scan_level_agreement]
